@@ -2239,7 +2239,9 @@ class cmd_config(Command):
                 name = parts[1]
             else:
                 # For keys like "remote.origin.url", section is ("remote", "origin")
-                section = tuple(parts[:-1])
+                # (the subsection is what stands between the first and the
+                # last dot: it may hold dots itself, as in branch.release-1.2.remote)
+                section = (parts[0], ".".join(parts[1:-1]))
                 name = parts[-1]
 
             try:
@@ -2284,7 +2286,9 @@ class cmd_config(Command):
                 section = (parts[0],)
                 name = parts[1]
             else:
-                section = tuple(parts[:-1])
+                # (the subsection is what stands between the first and the
+                # last dot: it may hold dots itself, as in branch.release-1.2.remote)
+                section = (parts[0], ".".join(parts[1:-1]))
                 name = parts[-1]
 
             try:
@@ -2309,7 +2313,9 @@ class cmd_config(Command):
                 name = parts[1]
             else:
                 # For keys like "remote.origin.url", section is ("remote", "origin")
-                section = tuple(parts[:-1])
+                # (the subsection is what stands between the first and the
+                # last dot: it may hold dots itself, as in branch.release-1.2.remote)
+                section = (parts[0], ".".join(parts[1:-1]))
                 name = parts[-1]
 
             try:
@@ -2332,7 +2338,9 @@ class cmd_config(Command):
                 name = parts[1]
             else:
                 # For keys like "remote.origin.url", section is ("remote", "origin")
-                section = tuple(parts[:-1])
+                # (the subsection is what stands between the first and the
+                # last dot: it may hold dots itself, as in branch.release-1.2.remote)
+                section = (parts[0], ".".join(parts[1:-1]))
                 name = parts[-1]
 
             config.set(section, name, parsed_args.value)
